@@ -445,7 +445,7 @@ pub fn run(ctx: &mut Ctx) {
     let nseq = ctx.n(24, 600);
     let mut seed = ctx.seed.wrapping_mul(1_000_003);
     for s in 0..nseq {
-        let (size, start) = match s % 5 { 0 => (2, 0), 1 => (3, 1), 2 => (6, 0), 3 => (default, default - 1 - ctx.rng.below(6) as u32), _ => (default, 0) };
+        let (size, start) = match s % 6 { 5 => (1, 0), 0 => (2, 0), 1 => (3, 1), 2 => (6, 0), 3 => (default, default - 1 - ctx.rng.below(6) as u32), _ => (default, 0) };
         let mut rc = RingCtx::new(size, start);
         ctx.emit(&format!("new {size} {start}"), "ok");
         let p = pools(ctx);
